@@ -121,7 +121,23 @@ def jinja_context_mutation():
     return None
 
 
+def scheduler_ghost():
+    from mv.props import c13
+    case = {'impl': 'default', 'n_inst': 1, 'n_jobs': 1, 'pickup': 1,
+            'timeout': 1, 'batch': None,
+            'plan': [['schedule', 0, 0, 0, 'k1', False],
+                     ['query', 0, 'k1']]}
+    viol = c13.check_case(case)
+    for v in viol:
+        if v['kind'] == 'pending-jobs-query-wrong':
+            return ('scheduler-ghost-pending-job: after a rolled-back '
+                    'schedule(key=k1) has_scheduled_jobs(key=k1, '
+                    'processing=False) still answers True on that instance')
+    return None
+
+
 SUBCHECKS = {'join-retrigger': join_retrigger,
+             'scheduler-ghost-pending-job': scheduler_ghost,
              'jinja-context-mutation': jinja_context_mutation,
              'withitems-rerun-concurrency': withitems_rerun_concurrency,
              'withitems-subwf-pause': withitems_subwf_pause}
